@@ -240,7 +240,7 @@ func c08AckGens() []c08Gen {
 				c08Product([][]uint64{set, set, set, set, set}, func(v []uint64) {
 					for _, e := range []ecn{{}, {1, 64, 16384}} {
 						if f, good := build(L, v, d, e); good {
-							emit(c08FrameValue{f: f, valid: true})
+							emit(c08FrameValue{f: f, valid: true, light: true})
 						}
 					}
 				})
@@ -326,7 +326,7 @@ func c08FrameLatticePart() c08PartSpec {
 				_, typeLen, _ := c08RefVarint(enc)
 				c08MutationsLimit(enc, len(enc), func(m []byte, pos int) {
 					v := c08Versions[pos%2]
-					if c.thorough || pos < typeLen {
+					if (c.thorough && !x.light) || pos < typeLen {
 						for _, g := range full {
 							c.checkFrameBytes(g, m, v)
 						}
@@ -338,7 +338,7 @@ func c08FrameLatticePart() c08PartSpec {
 					for _, g := range full {
 						c.checkFrameBytes(g, w, protocol.Version1)
 					}
-					if c.thorough {
+					if c.thorough && !x.light {
 						c08MutationsLimit(w, len(w), func(m []byte, pos int) {
 							c.checkFrameBytes(oneRTT, m, c08Versions[pos%2])
 						})
